@@ -332,6 +332,10 @@ class RandInfoBuilder(ModelVisitor,RandIF):
                     for c in self._active_randset.soft_constraints():
                         ex_randset.add_constraint(c)
 
+                    # Keep the dist information of the merged set
+                    for df,dl in self._active_randset.dist_field_m.items():
+                        ex_randset.dist_field_m.setdefault(df, []).extend(dl)
+
                     # Remove the previous randset
                     idx = self._randset_m[self._active_randset]
                     self._randset_m.pop(self._active_randset)
@@ -420,6 +424,10 @@ class RandInfoBuilder(ModelVisitor,RandIF):
                     
                 for c in self._active_randset.soft_constraints():
                     ex_randset.add_constraint(c)
+
+                # Keep the dist information of the merged set
+                for df,dl in self._active_randset.dist_field_m.items():
+                    ex_randset.dist_field_m.setdefault(df, []).extend(dl)
 
                 # Remove the previous randset
                 idx = self._randset_m[self._active_randset]
